@@ -166,6 +166,47 @@ def main_body(connection, kind, gs):
     return components(level_sets), ids
 
 
+def check_grid(connection):
+    """C13: the water-level grid is the contiguous range of cells
+    [k*step, (k+1)*step) covering [min zeta, max zeta]"""
+    findings = []
+    stats = {}
+
+    def hit(name, n=1):
+        stats[name] = stats.get(name, 0) + n
+
+    (gs,) = connection.execute('SELECT grid_interval_mm FROM zeta_grid').fetchone()
+    grid = sorted(r[0] for r in connection.execute('SELECT zeta_number FROM discrete_zeta'))
+    zmin, zmax = connection.execute('SELECT min(zeta_mm), max(zeta_mm) FROM water_level').fetchone()
+    if zmin is None:
+        return findings, stats
+    if not grid:
+        if zmin != zmax:
+            findings.append(('C13', 'grid-empty', {'observed_mm': [zmin, zmax], 'step': gs}))
+        return findings, stats
+    if grid != list(range(grid[0], grid[-1] + 1)):
+        findings.append(('C13', 'grid-not-contiguous', {'first': grid[0], 'last': grid[-1], 'n': len(grid)}))
+    tol = 1e-9 * max(1.0, abs(zmin), abs(zmax))
+    if grid[0] * gs > zmin + tol or (grid[-1] + 1) * gs < zmax - tol:
+        findings.append(('C13', 'grid-does-not-cover-observed-range',
+                         {'grid_mm': [grid[0] * gs, (grid[-1] + 1) * gs], 'observed_mm': [zmin, zmax], 'step': gs}))
+    else:
+        hit('grid-cover-checked')
+    for v, got, f, name in ((zmin, grid[0], math.floor, 'low'), (zmax, grid[-1] + 1, math.ceil, 'high')):
+        q = v / gs
+        if abs(q - round(q)) > 1e-9 * max(1.0, abs(q)):
+            if got != f(q):
+                findings.append(('C13', 'grid-end-is-not-floor-min-or-ceil-max',
+                                 {'end': name, 'value_mm': v, 'quotient': q, 'grid_end': got, 'step': gs}))
+        else:
+            hit('observed-extreme-on-a-grid-level')
+            # on a level: the cell below (low end) / above (high end) is optional
+            if got not in (round(q), round(q) - 1 if name == 'low' else round(q) + 1):
+                findings.append(('C13', 'grid-end-is-not-floor-min-or-ceil-max',
+                                 {'end': name, 'value_mm': v, 'quotient': q, 'grid_end': got, 'step': gs}))
+    return findings, stats
+
+
 def walk_curve(connection, kind, reference_level=None, rng=None):
     """kind: 'recession' or 'rise'.  Returns (findings, stats).
     reference_level: integer level k given as -r k*step, or None."""
@@ -256,24 +297,10 @@ def walk_curve(connection, kind, reference_level=None, rng=None):
     hit('crossings-tie-ambiguous', n_amb)
 
     # ---- C13 grid covers the observed range
-    if wl:
-        zmin, zmax = min(wl.values()), max(wl.values())
-        if grid:
-            if grid != list(range(grid[0], grid[-1] + 1)):
-                findings.append(('C13', 'grid-not-contiguous', {'first': grid[0], 'last': grid[-1], 'n': len(grid)}))
-            tol = 1e-9 * max(1.0, abs(zmin), abs(zmax))
-            if grid[0] * gs > zmin + tol or (grid[-1] + 1) * gs < zmax - tol:
-                findings.append(('C13', 'grid-does-not-cover-observed-range',
-                                 {'grid_mm': [grid[0] * gs, (grid[-1] + 1) * gs], 'observed_mm': [zmin, zmax]}))
-            else:
-                hit('grid-cover-checked')
-            for v, got, f in ((zmin, grid[0], math.floor), (zmax, grid[-1] + 1, math.ceil)):
-                q = v / gs
-                if abs(q - round(q)) > 1e-9 * max(1.0, abs(q)) and got != f(q):
-                    findings.append(('C13', 'grid-end-is-not-floor-min-or-ceil-max',
-                                     {'value_mm': v, 'quotient': q, 'grid_end': got}))
-            if abs(zmin / gs - round(zmin / gs)) <= 1e-12 or abs(zmax / gs - round(zmax / gs)) <= 1e-12:
-                hit('observed-extreme-exactly-on-a-grid-level')
+    gf, gstats = check_grid(connection)
+    findings.extend(gf)
+    for name, n in gstats.items():
+        hit(name, n)
 
     # ---- C08 component handling
     ids = sorted(own)
